@@ -141,7 +141,7 @@ class _ExecutorWrapper[**Args, Result]:
         owner: type | None = None,
         /,
     ) -> Callable[Args, Coroutine[None, None, Result]]:
-        if owner is None:
+        if owner is None or instance is None:
             return self
 
         else:
